@@ -3011,6 +3011,19 @@ func (c S3ApiController) DeleteObjects(ctx *fiber.Ctx) error {
 			})
 	}
 
+	// every key (and version id) of the request must be a confined name
+	for _, obj := range dObj.Objects {
+		if obj.Key == nil || !utils.ConfinedKey(*obj.Key) || !utils.ConfinedID(backend.GetStringFromPtr(obj.VersionId)) {
+			return SendResponse(ctx, s3err.GetAPIError(s3err.ErrInvalidRequest),
+				&MetaOpts{
+					Logger:      c.logger,
+					MetricsMng:  c.mm,
+					Action:      metrics.ActionDeleteObjects,
+					BucketOwner: parsedAcl.Owner,
+				})
+		}
+	}
+
 	// the decision is taken per object: every key of the request must be
 	// allowed s3:DeleteObject on bucket/key (an empty request is decided on
 	// the bucket as before)
